@@ -1404,6 +1404,14 @@ pub fn generate_c18(tier: &str, seed: u64, out: &mut Out) {
         for l in lists_upto(&["a", "5", "+5", "é", "x=y"], 4) {
             out.req(&op_parse, &[es(&l.join(" "))]);
         }
+        // canonical lines (text-side clause): tokens joined by single spaces around a canonical size
+        for h in &toks {
+            for n in ["0", "7", "10", "18446744073709551615"] {
+                for f in ["f", "é", "[x]", "a=b"] {
+                    out.req(&op_parse, &[es(&format!("{} {} {}", h, n, f))]);
+                }
+            }
+        }
     }
 
     // changes File
@@ -1425,6 +1433,12 @@ pub fn generate_c18(tier: &str, seed: u64, out: &mut Out) {
     }
     for l in lists_upto(&["a", "5", "optional", "extra", "é"], 5) {
         out.req("codec.File.parse", &[es(&l.join(" "))]);
+    }
+    for m in &toks {
+        for p in ["required", "important", "standard", "optional", "extra"] {
+            out.req("codec.File.parse", &[es(&format!("{} 10 sec {} {}", m, p, m))]);
+            out.req("codec.File.parse", &[es(&format!("m 0 {} {} f", m, p))]);
+        }
     }
 
     // PackageListEntry
@@ -1459,6 +1473,12 @@ pub fn generate_c18(tier: &str, seed: u64, out: &mut Out) {
     }
     for l in lists_upto(&["a", "optional", "k=v", "é"], 5) {
         out.req("codec.PackageListEntry.parse", &[es(&l.join(" "))]);
+    }
+    // canonical lines: extras in strictly increasing key order (and near misses of that order)
+    for t in &toks {
+        for ex in ["", " a=1", " a=1 b=2", " =0 a=1 a!=2 b= é=x", " k=v=w", " b=2 a=1", " a=1 a=2", " A=1 a=2 é=3 日本=4"] {
+            out.req("codec.PackageListEntry.parse", &[es(&format!("{} deb {} optional{}", t, t, ex))]);
+        }
     }
 
     // BuildProfile
